@@ -135,7 +135,9 @@ func GetWhereStatements(stmt sqlparser.Statement) ([]*sqlparser.Where, error) {
 
 // FindColumnInfo get ColumnInfo from TableExprs, ColName  and  TableSchemaStore
 func FindColumnInfo(fromExpr sqlparser.TableExprs, colName *sqlparser.ColName, schemaStore config.TableSchemaStore) (base.ColumnInfo, error) {
-	var alias = colName.Qualifier.Name.RawValue()
+	// table names and aliases are compared in the spelling of the config everywhere below (RawValue() keeps the
+	// case: `SELECT T.col FROM T`, `SELECT x.col FROM t AS X` found no table although the config names it)
+	var alias = colName.Qualifier.Name.ValueForConfig()
 	var columnName = colName.Name.ValueForConfig()
 
 	if alias == "" {
@@ -234,7 +236,7 @@ func MapColumnsToAliases(selectQuery *sqlparser.Select, tableSchemaStore config.
 					out = append(out, &base.ColumnInfo{Table: tableNameStr, Name: allColumnsName, Alias: allColumnsName})
 					continue
 				}
-				tableNameStr, err := findTableName(starExpr.TableName.Name.RawValue(), starExpr.TableName.Name.RawValue(), selectQuery.From)
+				tableNameStr, err := findTableName(starExpr.TableName.Name.ValueForConfig(), starExpr.TableName.Name.ValueForConfig(), selectQuery.From)
 				if err != nil {
 					return nil, err
 				}
@@ -298,13 +300,13 @@ func parseJoinTablesInfo(joinExp *sqlparser.JoinTableExpr, tables *[]string, ali
 			return false
 		}
 
-		alias := aliased.As.RawValue()
+		alias := aliased.As.ValueForConfig()
 		if aliased.As.RawValue() == "" {
-			alias = tableName.Name.RawValue()
+			alias = tableName.Name.ValueForConfig()
 		}
 
-		*tables = append(*tables, tableName.Name.RawValue())
-		aliases[alias] = tableName.Name.RawValue()
+		*tables = append(*tables, tableName.Name.ValueForConfig())
+		aliases[alias] = tableName.Name.ValueForConfig()
 		return true
 	}
 
@@ -346,13 +348,13 @@ func getRightJoinTableInfo(joinExp *sqlparser.JoinTableExpr, tables *[]string, a
 		return false
 	}
 
-	alias := rAliased.As.RawValue()
+	alias := rAliased.As.ValueForConfig()
 	if rAliased.As.RawValue() == "" {
-		alias = tableName.Name.RawValue()
+		alias = tableName.Name.ValueForConfig()
 	}
 	if _, ok := aliases[alias]; !ok {
-		*tables = append(*tables, tableName.Name.RawValue())
-		aliases[alias] = tableName.Name.RawValue()
+		*tables = append(*tables, tableName.Name.ValueForConfig())
+		aliases[alias] = tableName.Name.ValueForConfig()
 	}
 
 	return true
@@ -507,7 +509,7 @@ func getTableNameWithoutAliases(expr sqlparser.TableExpr) (string, error) {
 	if !ok {
 		return "", errNotFoundtable
 	}
-	return tableName.Name.RawValue(), nil
+	return tableName.Name.ValueForConfig(), nil
 }
 
 func findTableName(alias, columnName string, expr sqlparser.SQLNode) (base.ColumnInfo, error) {
@@ -532,7 +534,7 @@ func findTableName(alias, columnName string, expr sqlparser.SQLNode) (base.Colum
 		if val.As.IsEmpty() {
 			return findTableName(alias, columnName, val.Expr)
 		}
-		if val.As.RawValue() == alias {
+		if val.As.ValueForConfig() == alias {
 			if tblName, ok := val.Expr.(sqlparser.TableName); ok {
 				return findTableName(tblName.Name.ValueForConfig(), columnName, val.Expr)
 			}
@@ -560,7 +562,7 @@ func findTableName(alias, columnName string, expr sqlparser.SQLNode) (base.Colum
 						} else {
 							// t1.col1 == col1 so we should find source name of t1.
 							if aliasVal.Name.EqualString(columnName) {
-								return findTableName(aliasVal.Qualifier.Name.RawValue(), aliasVal.Name.String(), val.From)
+								return findTableName(aliasVal.Qualifier.Name.ValueForConfig(), aliasVal.Name.ValueForConfig(), val.From)
 							}
 						}
 						continue
@@ -574,9 +576,9 @@ func findTableName(alias, columnName string, expr sqlparser.SQLNode) (base.Colum
 							if err != nil {
 								return base.ColumnInfo{}, err
 							}
-							return findTableName(firstTable, aliasVal.Name.String(), val.From)
+							return findTableName(firstTable, aliasVal.Name.ValueForConfig(), val.From)
 						}
-						return findTableName(aliasVal.Qualifier.Name.RawValue(), aliasVal.Name.String(), val.From)
+						return findTableName(aliasVal.Qualifier.Name.ValueForConfig(), aliasVal.Name.ValueForConfig(), val.From)
 					}
 				}
 			}
